@@ -7,3 +7,5 @@ BINS += c13_wrapped
 c13_wrapped_OBJS := c13_wrapped
 BINS += c07_wto
 c07_wto_OBJS := c07_wto
+BINS += c19_containers
+c19_containers_OBJS := c19_containers
